@@ -14,7 +14,7 @@ from __future__ import annotations
 import types
 
 from engine import coop
-from engine.api import SEED, cond, is_open, pick, task  # noqa: F401
+from engine.api import SEED, HarnessModelError, cond, harness_side, is_open, pick, task  # noqa: F401
 
 from vgi_rpc.http.server import _sticky as st
 
@@ -33,7 +33,7 @@ ENCODED = [
     *([st._SessionRegistry._close_entry, st._SessionRegistry.is_live] if hasattr(st._SessionRegistry, "_close_entry") else []),
     st._SessionResource.on_delete,
 ]
-BOUNDS = "quick: pairs of threads out of {request (optionally closing in-method), second request, DELETE, reaper tick, shutdown} on one session, start thread + 2 preemptions, clock before/after the TTL per thread; thorough: triples, 3 preemptions; statement granularity"
+BOUNDS = "quick: 13 pairs of threads out of {request, request closing in-method, DELETE, reaper tick, shutdown} on one session, symbolic start thread + 1 preemption at any statement (covers A|B|A), clock before/after the TTL per thread; thorough: the same pairs with 2 preemptions and three triples; statement granularity"
 OUTSIDE = "token sealing/opening (C25), Falcon's middleware ordering, preemption inside a statement, more than one session"
 ASSUMPTIONS = [
     "_open_session_token/_compute_aad/_get_auth_and_metadata/_expected_server_id := the presented token is valid for this worker and identity (C25 decides the rest)",
@@ -42,7 +42,6 @@ ASSUMPTIONS = [
     "a request is 'dispatching' between the return of process_request (not completed) and the call of process_response",
 ]
 
-SID = b"\x01" * 16
 PKEY = "\x00anonymous"
 
 
@@ -55,6 +54,7 @@ class _World:
         self.role: dict[int, str] = {}
         self.now: dict[int, int] = {}
         self.dispatched: list[int] = []
+        self.sid: bytes = b""  # id the registry gave the session (set by _build)
 
     def begin(self, i: int) -> None:
         if self.closes > 0:
@@ -94,6 +94,9 @@ class _TimeShim(types.ModuleType):
         w = _WORLD[-1]
         return w.now.get(w.me(), 0)
 
+    def __getattr__(self, name: str):  # type: ignore[no-untyped-def]
+        raise HarnessModelError(f"time.{name} is not modelled (only time.time, as a per-thread integer clock)")
+
 
 class _Req:
     def __init__(self, token: str | None) -> None:
@@ -121,10 +124,10 @@ def _set_error_response(resp, exc, status_code=None, **kw) -> None:  # type: ign
 
 
 _STUBS = {
-    "_get_auth_and_metadata": lambda: (None, None),
-    "_compute_aad": lambda auth: b"aad",
-    "_open_session_token": lambda token, key, aad: ("srv", SID, 0),
-    "_expected_server_id": lambda req: "srv",
+    "_get_auth_and_metadata": lambda *a, **k: (None, None),
+    "_compute_aad": lambda *a, **k: b"aad",
+    "_open_session_token": lambda *a, **k: ("srv", _WORLD[-1].sid, 0),
+    "_expected_server_id": lambda *a, **k: "srv",
     "_set_error_response": _set_error_response,
     "time": _TimeShim("time"),
 }
@@ -135,22 +138,51 @@ UNIT = coop.Unit(ENCODED, globals_overrides={**_STUBS, **_CVARS})
 EXPIRES = 50
 
 
+def _put(obj, name: str, value) -> None:  # type: ignore[no-untyped-def]
+    """Replace a private attribute the model needs to own (a lock, the reaper slot).  If the code no
+    longer has it, the scenario cannot be set up: a harness-model problem, never a finding."""
+    if not hasattr(obj, name):
+        raise HarnessModelError(f"{type(obj).__name__}.{name} is gone: the scheduler cannot put its own lock/clock there")
+    setattr(obj, name, value)
+
+
 def _build(world: _World, reg_lock, entry_lock):  # type: ignore[no-untyped-def]
-    registry = st._SessionRegistry.__new__(st._SessionRegistry)
-    registry._default_ttl = 100
-    registry._lock = reg_lock
-    registry._draining = False
-    entry = st._SessionEntry(state=_State(world), expires_at=EXPIRES, principal_key=PKEY, lock=entry_lock)
-    registry._entries = {SID: entry}
-    mw = st._StickyMiddleware.__new__(st._StickyMiddleware)
-    mw._registry = registry
-    mw._token_key = b"k" * 32
-    mw._exempt_prefixes = ()
-    mw._echo_headers = ()
-    mw._reaper = object()  # the reaper thread is a scenario thread here, not started by the middleware
-    mw._reaper_lock = None
+    """One live session, set up by the REAL constructors and the real registry.open(); only the two
+    locks (so the scheduler owns them), the entry's expiry (integer clock) and the reaper slot (the
+    reaper is a scenario thread) are replaced afterwards."""
+    registry = st._SessionRegistry(100)
+    sid, _exp = registry.open(_State(world), None, PKEY)
+    world.sid = sid
+    entry = registry.get(sid, PKEY)
+    if entry is None:
+        raise HarnessModelError("registry.get() does not return the session registry.open() just registered")
+    _put(entry, "expires_at", EXPIRES)
+    _put(entry, "lock", entry_lock)
+    _put(registry, "_lock", reg_lock)
+    mw = st._StickyMiddleware(registry, b"k" * 32)
+    _put(mw, "_reaper", object())  # the reaper thread is a scenario thread here, not started by the middleware
     res = st._SessionResource(registry, b"k" * 32)
     return registry, entry, mw, res
+
+
+def _live(registry, world: _World) -> bool:  # type: ignore[no-untyped-def]
+    """Is the session still registered?  Asked through the public iteration API, after the run, with
+    an ordinary lock in place of the scheduler's."""
+    import threading
+
+    _put(registry, "_lock", threading.Lock())
+    return world.sid in set(registry)
+
+
+def _untraced(fn, *a):  # type: ignore[no-untyped-def]
+    """Scenario set-up is concrete: run it with CrossHair's tracing suspended (its time.time()
+    would otherwise hand the real registry.open() a symbolic float)."""
+    from crosshair.tracers import NoTracing, is_tracing
+
+    if is_tracing():
+        with NoTracing():
+            return fn(*a)
+    return fn(*a)
 
 
 # ---- scenario threads (cooperative) ----------------------------------------
@@ -201,7 +233,7 @@ def _scenario(roles: list[int], past: list[bool], first: int, pre):  # type: ign
     world = _World(lambda: s.current)
     _WORLD.append(world)
     try:
-        registry, entry, mw, res = _build(world, s.Lock(), s.RLock())
+        registry, entry, mw, res = _untraced(_build, world, s.Lock(), s.RLock())
         for i, r in enumerate(roles):
             world.role[i] = ROLES[r]
             world.now[i] = EXPIRES + 10 if past[i] else EXPIRES - 10
@@ -228,11 +260,15 @@ def _problems(s, world, registry, entry, roles, past) -> list[str]:  # type: ign
         bad.append("deadlock")
     for t in s.threads:
         if t.exc is not None:
+            why = harness_side(t.exc)
+            if why:
+                raise HarnessModelError("scenario thread: " + why)
             bad.append("exception:" + type(t.exc).__name__)
-    # the session ended (removed from the registry) => its close hook ran exactly once
-    if SID not in registry._entries and world.closes != 1:
+    # the session ended (no longer registered) => its close hook ran exactly once
+    live = _untraced(_live, registry, world)
+    if not live and world.closes != 1:
         bad.append("ended-without-close" if world.closes == 0 else "closed-twice")
-    if SID in registry._entries and world.closes != 0:
+    if live and world.closes != 0:
         bad.append("closed-but-still-registered")
     # the per-session lock is free at the end
     if getattr(entry.lock, "owner", None) is not None:
@@ -319,8 +355,8 @@ def _run_real(roles: list[int], past: list[bool], s):  # type: ignore[no-untyped
         for k, v in saved.items():
             setattr(st, k, v)
         _WORLD.pop()
-    if res["diverged"] or not res["completed"]:
-        return None, rworld, res
+    if res["diverged"] or not res["completed"] or res.get("harness_side"):
+        return None, rworld, res  # the schedule could not be imposed, or a fake gave up: says nothing
 
     class _S:
         deadlocked = False
@@ -503,6 +539,97 @@ def delete_vs_delete_k2(past0: bool, past1: bool, first: int, p1: int, p2: int) 
     post: _
     """
     return _pair(2, 2, past0, past1, first, [(p1, 1 - first), (p2, first)])
+
+
+@cond(q=240, t=400, engine="coop", encoded=ENCODED, stubs=ASSUMPTIONS[:2], bound=_PB % ("request closing in-method", "request closing in-method", 1), replay=_pair_replay(1, 1), signature=_pair_sig(1, 1))
+def closing_request_vs_closing_request_k1(past0: bool, past1: bool, first: int, p1: int) -> bool:
+    """
+    pre: 0 <= first <= 1 and 0 <= p1 <= 110
+    post: _
+    """
+    return _pair(1, 1, past0, past1, first, [(p1, 1 - first)])
+
+
+@cond(q=100, t=2400, tiers=("thorough",), engine="coop", encoded=ENCODED, stubs=ASSUMPTIONS[:2], bound=_PB % ("request closing in-method", "request closing in-method", 2), replay=_pair_replay(1, 1), signature=_pair_sig(1, 1))
+def closing_request_vs_closing_request_k2(past0: bool, past1: bool, first: int, p1: int, p2: int) -> bool:
+    """
+    pre: 0 <= first <= 1 and 0 <= p1 < p2 <= 110
+    post: _
+    """
+    return _pair(1, 1, past0, past1, first, [(p1, 1 - first), (p2, first)])
+
+
+@cond(q=240, t=400, engine="coop", encoded=ENCODED, stubs=ASSUMPTIONS[:2], bound=_PB % ("request closing in-method", "reaper tick", 1), replay=_pair_replay(1, 3), signature=_pair_sig(1, 3))
+def closing_request_vs_reaper_k1(past0: bool, past1: bool, first: int, p1: int) -> bool:
+    """
+    pre: 0 <= first <= 1 and 0 <= p1 <= 110
+    post: _
+    """
+    return _pair(1, 3, past0, past1, first, [(p1, 1 - first)])
+
+
+@cond(q=100, t=2400, tiers=("thorough",), engine="coop", encoded=ENCODED, stubs=ASSUMPTIONS[:2], bound=_PB % ("request closing in-method", "reaper tick", 2), replay=_pair_replay(1, 3), signature=_pair_sig(1, 3))
+def closing_request_vs_reaper_k2(past0: bool, past1: bool, first: int, p1: int, p2: int) -> bool:
+    """
+    pre: 0 <= first <= 1 and 0 <= p1 < p2 <= 110
+    post: _
+    """
+    return _pair(1, 3, past0, past1, first, [(p1, 1 - first), (p2, first)])
+
+
+@cond(q=240, t=400, engine="coop", encoded=ENCODED, stubs=ASSUMPTIONS[:2], bound=_PB % ("request closing in-method", "shutdown", 1), replay=_pair_replay(1, 4), signature=_pair_sig(1, 4))
+def closing_request_vs_shutdown_k1(past0: bool, past1: bool, first: int, p1: int) -> bool:
+    """
+    pre: 0 <= first <= 1 and 0 <= p1 <= 110
+    post: _
+    """
+    return _pair(1, 4, past0, past1, first, [(p1, 1 - first)])
+
+
+@cond(q=100, t=2400, tiers=("thorough",), engine="coop", encoded=ENCODED, stubs=ASSUMPTIONS[:2], bound=_PB % ("request closing in-method", "shutdown", 2), replay=_pair_replay(1, 4), signature=_pair_sig(1, 4))
+def closing_request_vs_shutdown_k2(past0: bool, past1: bool, first: int, p1: int, p2: int) -> bool:
+    """
+    pre: 0 <= first <= 1 and 0 <= p1 < p2 <= 110
+    post: _
+    """
+    return _pair(1, 4, past0, past1, first, [(p1, 1 - first), (p2, first)])
+
+
+@cond(q=240, t=400, engine="coop", encoded=ENCODED, stubs=ASSUMPTIONS[:2], bound=_PB % ("DELETE", "shutdown", 1), replay=_pair_replay(2, 4), signature=_pair_sig(2, 4))
+def delete_vs_shutdown_k1(past0: bool, past1: bool, first: int, p1: int) -> bool:
+    """
+    pre: 0 <= first <= 1 and 0 <= p1 <= 110
+    post: _
+    """
+    return _pair(2, 4, past0, past1, first, [(p1, 1 - first)])
+
+
+@cond(q=100, t=2400, tiers=("thorough",), engine="coop", encoded=ENCODED, stubs=ASSUMPTIONS[:2], bound=_PB % ("DELETE", "shutdown", 2), replay=_pair_replay(2, 4), signature=_pair_sig(2, 4))
+def delete_vs_shutdown_k2(past0: bool, past1: bool, first: int, p1: int, p2: int) -> bool:
+    """
+    pre: 0 <= first <= 1 and 0 <= p1 < p2 <= 110
+    post: _
+    """
+    return _pair(2, 4, past0, past1, first, [(p1, 1 - first), (p2, first)])
+
+
+@cond(q=240, t=400, engine="coop", encoded=ENCODED, stubs=ASSUMPTIONS[:2], bound=_PB % ("reaper tick", "shutdown", 1), replay=_pair_replay(3, 4), signature=_pair_sig(3, 4))
+def reaper_vs_shutdown_k1(past0: bool, past1: bool, first: int, p1: int) -> bool:
+    """
+    pre: 0 <= first <= 1 and 0 <= p1 <= 110
+    post: _
+    """
+    return _pair(3, 4, past0, past1, first, [(p1, 1 - first)])
+
+
+@cond(q=100, t=2400, tiers=("thorough",), engine="coop", encoded=ENCODED, stubs=ASSUMPTIONS[:2], bound=_PB % ("reaper tick", "shutdown", 2), replay=_pair_replay(3, 4), signature=_pair_sig(3, 4))
+def reaper_vs_shutdown_k2(past0: bool, past1: bool, first: int, p1: int, p2: int) -> bool:
+    """
+    pre: 0 <= first <= 1 and 0 <= p1 < p2 <= 110
+    post: _
+    """
+    return _pair(3, 4, past0, past1, first, [(p1, 1 - first), (p2, first)])
+
 
 
 @task(q=90, t=200, engine="coop-validation", encoded=ENCODED, bound="model validation: concrete schedules forced onto genuine threads")
